@@ -86,14 +86,16 @@ Uf2BlockOk(b) == /\ b.m0 = A(2610, 18005)      \* 0x0A324655
                  /\ b.size.h = 0 /\ b.size.l <= 476
                  /\ Len(b.data) = 476
 PicoAbsolute(b) == b.family = A(58507, 65367)  \* 0xe48bff57: the fixed block the writer prepends
+NotPicoBlock(b) == ~PicoAbsolute(b)
 Uf2Valid(f) == /\ f.rest = 0
                /\ \A i \in 1..Len(f.blocks) : Uf2BlockOk(f.blocks[i])
-               \* blocks of one family are numbered 0 .. total-1 in file order
-               /\ \A i \in {j \in 1..Len(f.blocks) : ~PicoAbsolute(f.blocks[j])} :
-                    LET b == f.blocks[i]
-                        same == {j \in 1..Len(f.blocks) : f.blocks[j].family = b.family}
-                    IN /\ b.total.h = 0 /\ b.total.l = Cardinality(same)
-                       /\ b.no.h = 0 /\ b.no.l = Cardinality({j \in same : j < i})
+               \* the program blocks (everything but the fixed block) are one family, numbered
+               \* 0 .. total-1 in file order
+               /\ LET sub == SelectSeq(f.blocks, NotPicoBlock) IN
+                  \A c \in 1..Len(sub) :
+                     /\ sub[c].family = sub[1].family
+                     /\ sub[c].total.h = 0 /\ sub[c].total.l = Len(sub)
+                     /\ sub[c].no.h = 0 /\ sub[c].no.l = c - 1
 
 -----------------------------------------------------------------------------
 (* raw binary: the bytes from the lowest address on (see BinChunks) *)
@@ -127,8 +129,7 @@ TotalBytes(runs) == Cardinality(RunIdx(runs))
 \* chunks: sequence of [base, D]
 ChunksOk(runs, chunks) ==
   /\ \A c \in 1..Len(chunks) : ChunkOk(runs, chunks[c].base, chunks[c].D)
-  /\ Cardinality(UNION {{<<c, p>> : p \in Hits(runs, chunks[c].base, Len(chunks[c].D))} : c \in 1..Len(chunks)})
-       = TotalBytes(runs)
+  /\ Cardinality(UNION {Hits(runs, chunks[c].base, Len(chunks[c].D)) : c \in 1..Len(chunks)}) = TotalBytes(runs)
 \* nothing beyond [low, high rounded up to the granule]
 SpanLen(low, high, g) == LET n == Diff(high, low) + 1 IN ((n + g - 1) \div g) * g
 WithinSpan(chunks, low, high, g) ==
@@ -141,10 +142,8 @@ ElfChunks(f) == LET ix == {j \in 1..Len(f.secs) : ElfLoadable(f.secs[j])} IN
                 [c \in 1..Cardinality(ix) |->
                    LET j == CHOOSE j \in ix : Cardinality({m \in ix : m < j}) = c - 1
                    IN [base |-> f.secs[j].addr, D |-> f.secs[j].data]]
-Uf2Chunks(f) == LET ix == {j \in 1..Len(f.blocks) : ~PicoAbsolute(f.blocks[j])} IN
-                [c \in 1..Cardinality(ix) |->
-                   LET j == CHOOSE j \in ix : Cardinality({m \in ix : m < j}) = c - 1
-                   IN [base |-> f.blocks[j].addr, D |-> SubSeq(f.blocks[j].data, 1, f.blocks[j].size.l)]]
+Uf2Chunks(f) == LET sub == SelectSeq(f.blocks, NotPicoBlock) IN
+                [c \in 1..Len(sub) |-> [base |-> sub[c].addr, D |-> SubSeq(sub[c].data, 1, sub[c].size.l)]]
 RbChunks(rb) == [c \in 1..Len(rb) |-> [base |-> rb[c].a, D |-> rb[c].d]]
 
 FileOk(ev) ==
